@@ -21,8 +21,11 @@ HighLowWide(b) == {[family |-> "highlow", bits |-> b, r |-> r, s |-> s] :
                     r \in {(b \div 4) - 1, b \div 4, (b \div 4) + 1, (b \div 4) + 2, (b \div 4) + 3, (b \div 4) + 16, (3 * b) \div 8}, s \in {2, 7}}
 HighLowCells == UNION {HighLowFor(b) \cup HighLowWide(b) : b \in (IF Thorough THEN {512, 1024, 2048} ELSE {512, 1024})}
 \* odd = 1: primes of l bits whose product has 2l - 1 bits (the check derives the prime size from the modulus: l - 1)
-UpperDiffCells == {[family |-> "upperdiff", L |-> l, dindex |-> d, odd |-> o] :
+\* qlong = 1 (the two large differences): p so high that q = p + D has one more bit while n keeps 2l bits
+UpperDiffCells == {[family |-> "upperdiff", L |-> l, dindex |-> d, odd |-> o, qlong |-> 0] :
                      l \in (IF Thorough THEN {385, 384, 512, 768, 1024, 1536, 2048} ELSE {385, 512, 1024}), d \in 0..5, o \in {0, 1}}
+                  \cup {[family |-> "upperdiff", L |-> l, dindex |-> d, odd |-> 0, qlong |-> 1] :
+                     l \in (IF Thorough THEN {384, 512, 1024, 2048} ELSE {384, 1024}), d \in {4, 5}}
 PatternFor(b) == {[family |-> "pattern", bits |-> b, w |-> w, dev |-> dv] :
                    w \in {x \in DefaultPatternSizes : x >= 7 /\ 16 * x <= b},
                    dv \in (IF Thorough THEN {8, 16, 31, 32} ELSE {16, 32})}
